@@ -25,21 +25,92 @@ WRAP_M = {"into", "as_deref", "as_ref", "as_str", "clone", "to_owned", "unwrap_o
 PLAYERS_IS_COUNT = {"games::mindustry::types::ServerData"}
 
 
-def field_of(n):
-    """strip wrappers, return field path list rooted at self, or None"""
-    n = H.strip(n)
-    while True:
-        if n[0] == "call" and n[1].get("ctor", "").endswith("Option::Some") and len(n) > 3:
-            n = H.strip(n[3])
-            continue
-        if n[0] == "mcall" and n[1]["name"] in WRAP_M:
-            n = H.strip(n[2])
-            continue
-        if n[0] == "cast":
-            n = H.strip(n[2])
-            continue
-        break
-    return H.field_path(n)
+WRAP_LAST = WRAP_M | {"from", "copied", "cloned", "to_vec", "as_mut", "borrow"}
+
+
+def _sym_ret(c, f):
+    """(value returned by accessor f, evaluator, printer): the canonical term of the function (sym.py), so that the rule sees
+    through let-bindings, `?` on options, helper locals and conversion spelling"""
+    from .. import sym as SY
+    sy = SY.Sym(c, lambda p: False, None)
+    eff = sy.run_unit(f)
+    pr = SY.Printer(sy)
+    rets = [e for e in eff if e[0] == "ret"]
+    others = [e for e in eff if e[0] not in ("ret",)]
+    if len(rets) != 1 or any(e[0] in ("op", "set", "loop", "scope") for e in others):
+        return None, sy, pr
+    return rets[0][1], sy, pr
+
+
+# `as` casts are transparent only when they cannot change the value: the accessor's declared widths are not known to the
+# term, so an `as` cast is accepted only towards the widest types the views use and never directly on top of another cast
+LOSSLESS_TO = {"u32", "u64", "i64", "usize", "f64", "u128", "i128"}
+
+
+def _cast_source_ok(v):
+    return v[2][0] != "cast"
+
+
+ELEM = ("elem",)
+
+
+def _strip_elem(v):
+    for _ in range(6):
+        if v[0] == "cast" and "dyn " in v[1]:
+            v = v[2]
+        elif v[0] == "ref":
+            v = v[1]
+        else:
+            break
+    return v
+
+
+def _transparent(sy, lam, arg):
+    """value of applying an effect-free lambda to `arg`, or None"""
+    if lam[0] != "lam" or lam[3] or lam[2] != 1:
+        return None
+    return sy.subst_bv(lam[4], lam[1], [arg])
+
+
+def field_of_value(v, sy=None):
+    """strip transparent wrappers from a symbolic value, return the field path rooted at self (['self', ...]) or None"""
+    for _ in range(16):
+        k = v[0]
+        if k == "ctor" and v[1] in ("Some", "Ok") and len(v[2]) == 1:
+            v = v[2][0]
+        elif k == "cast" and ("dyn " in v[1] or (v[1] in LOSSLESS_TO and _cast_source_ok(v))):
+            v = v[2]
+        elif k == "call" and len(v[3]) == 2 and v[3][1][0] == "lam" and v[1].split("::")[-1].split("<")[0] in ("map", "and_then"):
+            # a closure applied to the value (Option::map) or to each element (Iterator::map): it must itself be transparent
+            if sy is None:
+                return None
+            if v[1].startswith(("Option::", "Result::")):
+                r = _transparent(sy, v[3][1], v[3][0])
+                if r is None:
+                    return None
+                v = r
+            else:
+                r = _transparent(sy, v[3][1], ELEM)
+                if r is None or _strip_elem(r) != ELEM:
+                    return None
+                v = v[3][0]
+        elif k in ("try", "ref"):
+            v = v[1]
+        elif k == "call" and v[3] and v[1].split("::")[-1].split("<")[0] in WRAP_LAST:
+            v = v[3][0]
+        elif k in ("matchv",) and v[1][0] in ("fld", "param"):
+            v = v[1]
+        else:
+            break
+    path = []
+    while v[0] == "fld":
+        path.append(v[2])
+        v = v[1]
+        while v[0] == "ref":
+            v = v[1]
+    if v == ("param", 0) and path:
+        return ["self"] + list(reversed(path))
+    return None
 
 
 def run(tier, config):
@@ -57,27 +128,30 @@ def run(tier, config):
             if f is None or not f.get("hir"):
                 rep.add("%s|%s|body" % (ty, name), "C15:D1", False, "no body for %s::%s" % (ty, name))
                 continue
-            body = f["hir"]["body"]
-            txt = H.show(body)
             key = "<%s as %s>::%s" % (ty, im["trait"].split("::")[-1], name)
+            val, sy, pr = _sym_ret(c, f)
+            txt = pr.show(val) if val is not None else H.show(f["hir"]["body"])[:160]
             if name == "as_original":
-                b = H.strip(body)
-                inner = b
+                # Generic*(self), possibly through a per-version wrapper: Generic*(Versioned*::V(self)) / Generic*(version(self))
                 ok = False
-                depth = 0
-                while inner[0] == "call" and len(inner) > 3 and depth < 4:
-                    head = inner[1].get("ctor") or inner[1].get("fn") or ""
-                    inner = H.strip(inner[3])
-                    depth += 1
-                ok = depth >= 1 and H.local_name(inner) == "self" and ("Generic" in (b[1].get("ctor") or "") )
+                if val is not None and val[0] == "ctor" and "Generic" in val[1] and len(val[2]) == 1:
+                    inner = val[2][0]
+                    for _ in range(3):
+                        if inner[0] == "ctor" and len(inner[2]) == 1:
+                            inner = inner[2][0]
+                        elif inner[0] == "call" and len(inner[3]) == 1 and inner[1].split("::")[-1] == "version":
+                            inner = inner[3][0]
+                        else:
+                            break
+                    ok = inner == ("param", 0)
                 rep.add(key, "C15:D3", ok, "as_original = %s" % txt, f["span"])
                 continue
             if name == "as_json":
                 rep.add(key, "C15:D2", False, "%s overrides as_json (the default wiring is what is checked): %s" % (ty, txt[:120]), f["span"])
                 continue
-            fp = field_of(body)
+            fp = field_of_value(val, sy) if val is not None else None
             allowed = SYNONYMS.get(name, {name})
-            if fp is None or fp[0] != "self" or len(fp) < 2:
+            if fp is None or len(fp) < 2:
                 rep.add(key, "C15:D1", False, "accessor %s of %s does not return a field of self: %s" % (name, ty, txt[:160]), f["span"])
                 continue
             last = fp[-1]
@@ -93,31 +167,24 @@ def run(tier, config):
         if f is None or not f.get("hir"):
             rep.add("%s::as_json|default" % tr, "C15:D2", False, "default as_json of %s not found" % tr)
             continue
-        body = H.strip(f["hir"]["body"])
-        if body[0] != "struct":
-            rep.add("%s::as_json|default" % tr, "C15:D2", False, "default as_json is not a struct literal: %s" % H.show(body)[:120])
+        val, sy, pr = _sym_ret(c, f)
+        if val is None or val[0] != "struct":
+            rep.add("%s::as_json|default" % tr, "C15:D2", False, "default as_json is not a struct value: %s" % (pr.show(val) if val is not None else "?")[:120])
             continue
         n_f = 0
-        for fld in body[2:]:
-            if fld[0] != "fld":
-                continue
+        tname = tr.split("::")[-1]
+        for fname, e in val[2]:
             n_f += 1
-            fname = fld[1]["name"]
-            e = H.strip(fld[2])
-            # players: self.players().map(|ps| ps.iter().map(|p| p.as_json()).collect())
-            base = e
-            via = []
-            while base[0] == "mcall" and H.local_name(base[2]) != "self":
-                via.append(base[1]["name"])
-                base = H.strip(base[2])
-            ok = base[0] == "mcall" and H.local_name(base[2]) == "self" and base[1]["name"] == fname
-            if ok and fname == "players":
-                ok = "as_json" in H.show(e)
-            elif ok and via:
-                ok = False
-            rep.add("%s::as_json|%s" % (tr.split("::")[-1], fname), "C15:D2", ok, "json.%s <- %s" % (fname, H.show(e)[:100]), f["span"])
+            shown = pr.show(e)
+            direct = e == ("call", "%s::%s" % (tname, fname), (), (("param", 0),))
+            if fname == "players":
+                # self.players().map(|ps| ps.iter().map(|p| p.as_json()).collect())
+                ok = ("%s::players(a0)" % tname) in shown and "CommonPlayer::as_json" in shown
+            else:
+                ok = direct
+            rep.add("%s::as_json|%s" % (tname, fname), "C15:D2", ok, "json.%s <- %s" % (fname, shown[:100]), f["span"])
         want = 10 if kind == "resp" else 2
-        rep.add("%s::as_json|fields" % tr.split("::")[-1], "C15:D2", n_f == want, "%d JSON fields wired (expected %d)" % (n_f, want), nontrivial=False)
+        rep.add("%s::as_json|fields" % tname, "C15:D2", n_f == want, "%d JSON fields wired (expected %d)" % (n_f, want), nontrivial=False)
     if config in ("baseline", "libdefault"):
         rep.floor("CommonResponse impls", n_impl["resp"], 14)
         rep.floor("CommonPlayer impls", n_impl["player"], 11)
